@@ -1619,14 +1619,14 @@ class Distribution(Generic[X], GFI[X, X]):
             log_density_ = self.logpdf(x_, *args, **kwargs)
             return (
                 Tr(self, (args, kwargs), x_, x_, -log_density_),
-                log_density_ + tr.get_score(),
+                jnp.sum(log_density_) + tr.get_score(),
                 tr.get_retval(),
             )
         else:
             log_density_ = self.logpdf(x_, *args, **kwargs)
             return (
                 Tr(self, (args, kwargs), x_, x_, -log_density_),
-                log_density_ + tr.get_score(),
+                jnp.sum(log_density_) + tr.get_score(),
                 tr.get_retval(),
             )
 
@@ -1647,7 +1647,7 @@ class Distribution(Generic[X], GFI[X, X]):
             log_density_ = self.logpdf(get_choices(tr), *args, **kwargs)
             return (
                 Tr(self, (args, kwargs), x_, x_, -log_density_),
-                log_density_ + tr.get_score(),
+                jnp.sum(log_density_) + tr.get_score(),
                 None,
             )
 
@@ -1965,7 +1965,8 @@ class Generate:
         )
         tr, weight = gen_fn.generate(x, *args, **kwargs)
         self.score += tr.get_score()
-        self.weight += weight
+        # An array-valued site reports one weight per element: sum, as get_score does.
+        self.weight += jnp.sum(weight)
         self.trace_map[addr] = tr
         return tr.get_retval()
 
@@ -1994,7 +1995,8 @@ class Assess:
         x = self.choice_map[addr]
         x = get_choices(x)
         logp, r = gen_fn.assess(x, *args, **kwargs)
-        self.logp += logp
+        # An array-valued site reports one density per element: sum, as get_score does.
+        self.logp += jnp.sum(logp)
         return r
 
 
@@ -2034,7 +2036,7 @@ class Update(Generic[R]):
         self.trace_map[addr] = tr
         self.discard[addr] = discard
         self.score += tr.get_score()
-        self.weight += w
+        self.weight += jnp.sum(w)
         return tr.get_retval()
 
 
@@ -2070,7 +2072,7 @@ class Regenerate(Generic[R]):
         self.trace_map[addr] = tr
         self.discard[addr] = discard
         self.score += tr.get_score()
-        self.weight += w
+        self.weight += jnp.sum(w)
         return tr.get_retval()
 
 
